@@ -121,8 +121,10 @@ class GroupBy:
         if not all(isinstance(agg, tuple) for agg in aggregations):  # pragma: no cover
             raise ValueError("`aggregate` expects a list of Tuples")
 
-        # Collecting the values for each group and column
-        for group_key, column, value in self._map([col for _, col in aggregations]):
+        # Collecting the values for each group and column; a column requested by several
+        # aggregations is collected once, otherwise its values are counted once per request
+        collect_columns = list(dict.fromkeys(col for _, col in aggregations))
+        for group_key, column, value in self._map(collect_columns):
             if value is not None:
                 column_value_map[group_key][column].append(value)
 
